@@ -225,3 +225,63 @@ def p_std(ex, path, x, **kw):
 @prim("np.median")
 def p_median(ex, path, x, **kw):
     return UF("median_of", IntSort(), RealSort())(IntVal(id(x) % 1000003))
+
+
+# ---- C12: argsort / boolean-mask compression ---------------------------------------------------------------------
+@prim("np.argsort")
+def p_argsort(ex, path, x, **kw):
+    """permutation pi of [0,n) such that x[pi] is ascending"""
+    x = as_tensor(ex, path, x)
+    n = toI(x.axes[0].size)
+    pi = _Fn(f"argsort!{next(ex.fresh)}", IntSort(), IntSort())
+    inv = _Fn(f"argsort_inv!{next(ex.fresh)}", IntSort(), IntSort())
+    i, j = Int("i!as"), Int("j!as")
+    if x.axes[0].concrete():
+        m_ = x.axes[0].size
+        if m_ > 6:
+            raise Unsupported("argsort of a long concrete array")
+        for a_ in range(m_):
+            path.add(And(0 <= pi(a_), pi(a_) < m_, inv(pi(a_)) == a_, 0 <= inv(a_), inv(a_) < m_, pi(inv(a_)) == a_))
+            for b_ in range(a_ + 1, m_):
+                path.add(toR(x.elem(pi(a_))) <= toR(x.elem(pi(b_))))
+        t = T((Axis("argsort", m_),), lambda k, pi=pi: pi(toI(k)), kind="int", prov="fresh")
+        t.argsort_of = x
+        t.perm_fn = (pi, inv)
+        ex.__dict__.setdefault("argsort_log", []).append(pi)
+        return t
+    path.add(ForAll([i], Implies(And(0 <= i, i < n), And(0 <= pi(i), pi(i) < n, inv(pi(i)) == i)), patterns=[pi(i)]))
+    path.add(ForAll([i], Implies(And(0 <= i, i < n), And(0 <= inv(i), inv(i) < n, pi(inv(i)) == i)), patterns=[inv(i)]))
+    try:
+        path.add(ForAll([i, j], Implies(And(0 <= i, i <= j, j < n), toR(x.elem(pi(i))) <= toR(x.elem(pi(j)))), patterns=[MultiPattern(pi(i), pi(j))]))
+    except Exception as e_:
+        raise Unsupported(f"argsort pattern: {e_}; n={n} pi(i)={pi(i)} body={toR(x.elem(pi(i)))}")
+    t = T((Axis("argsort", x.axes[0].size),), lambda k, pi=pi: pi(toI(k)), kind="int", prov="fresh")
+    t.argsort_of = x
+    t.perm_fn = (pi, inv)
+    ex.__dict__.setdefault("argsort_log", []).append(pi)
+    return t
+
+
+def p_maskselect(ex, path, a, mask):
+    """a[mask] for a 1-D boolean mask over the leading axis: order-preserving sub-sequence.  Contract: there is a strictly
+    increasing index map sigma: [0,m) -> [0,n) with mask[sigma(k)] and out[k] = a[sigma(k)], and every masked index is hit
+    (rho is the inverse on masked indices)."""
+    if a.ndim != 1 or mask.ndim != 1:
+        out = T(a.axes, a.elem, kind=a.kind)
+        out.mask = (a.axes[0], mask)
+        return out
+    n = toI(a.axes[0].size)
+    m = ex.new_int("msel_len")
+    sigma = _Fn(f"sigma!{next(ex.fresh)}", IntSort(), IntSort())
+    rho = _Fn(f"rho!{next(ex.fresh)}", IntSort(), IntSort())
+    i, j = Int("i!ms"), Int("j!ms")
+    path.add(And(0 <= m, m <= n))
+    path.add(ForAll([i], Implies(And(0 <= i, i < m), And(0 <= sigma(i), sigma(i) < n, toB(mask.elem(sigma(i))), rho(sigma(i)) == i)), patterns=[sigma(i)]))
+    path.add(ForAll([i, j], Implies(And(0 <= i, i < j, j < m), sigma(i) < sigma(j)), patterns=[MultiPattern(sigma(i), sigma(j))]))
+    path.add(ForAll([i], Implies(And(0 <= i, i < n, toB(mask.elem(i))), And(0 <= rho(i), rho(i) < m, sigma(rho(i)) == i)), patterns=[rho(i)]))
+    out = T((Axis("msel", m),), lambda k, a=a, sigma=sigma: a.elem(sigma(toI(k))), kind=a.kind, prov="fresh")
+    out.select_of = (a, mask, sigma, rho, m)
+    return out
+
+
+PRIMS["__maskselect__"] = p_maskselect
